@@ -59,8 +59,9 @@ contract(S + "FortranFormat.__init__",
 contract(U + "Base.children", prop=True,
     types=dict(self="Base"), returns="any",
     calls={"getattr": "pure:any"},
-    ensures={}, raises=[], serves=["C10"],
-    note="content if set, else items (getattr with default abstracted)")
+    ensures={"content_first_then_items": "result == (getattr(self, 'content', None) if getattr(self, 'content', None) is not None else getattr(self, 'items', []))"},
+    raises=[], serves=["C10"],
+    note="content if set, else items (getattr with default abstracted as a pure function)")
 
 contract(U + "BlockBase.init",
     types=dict(self="BlockBase", content="list[ref:Base]"),
